@@ -28,7 +28,7 @@ func init() {
 	register("ERRDROP", "no error returned by a repo function (or by the yaml / io / os decoding calls) is discarded", 60, ruleErrDrop)
 	register("FLAGS", "every flag getter in cmd reads a flag that is defined with the same name and type", 19, ruleFlags)
 	register("NARROW", "a narrowing integer conversion of a validated field is covered by a bound in the type's validate", 3, ruleNarrow)
-	register("LOOKUP", "unknown chord symbols are an error before anything is built or played", 2, ruleLookup)
+	register("LOOKUP", "unknown chord symbols and chords without a valid degree are an error before anything is built, printed or played", 3, ruleLookup)
 }
 
 // ---------------------------------------------------------------------------
@@ -768,7 +768,7 @@ var reviewedPanicFuncs = map[string]struct {
 	"note.Name.Semitone":                 {"guarded", "panics on UnknownName: every producer of a Name (note.NewName call sites) is regex-guarded or checks for UnknownName (inventory below)"},
 	"note.Name.AddDegree":                {"guarded", "panics on UnknownName; same producer inventory as Name.Semitone"},
 	"note.Accidental.Semitone":           {"guarded", "panics on UnknownAccidental: note.NewAccidental is only called on a regex-guarded, non-empty [#b] match"},
-	"note.CoerceDegreeName.String":       {"guarded", "panics on the Unknown coercion, i.e. for a Degree that failed validation; degrees are produced by ParseDegree / NewDegree / CoerceDegreeName.Degree which return ok=false instead"},
+	"note.CoerceDegreeName.String":       {"guarded", "panics on the Unknown coercion, i.e. for a Degree that failed validation; degrees are produced by ParseDegree / NewDegree / CoerceDegreeName.Degree which return ok=false instead, and the zero Degree of an absent YAML key is refused before anything is printed (LOOKUP degree-present)"},
 	"midix.TrackNoSelectorImpl.Select":   {"guarded", "panics on an OpType other than MetaTrack / FixedTrack; the marker interface has exactly these two implementations (OPMAP checks the allocation sites)"},
 	"input/ast.VisitSwitch":              {"guarded", "panics on a node type outside the ten AST types; all arguments are fields of AST nodes built by the generated parser"},
 }
@@ -1521,6 +1521,20 @@ func ruleLookup(c *Ctx) {
 			good := c.missReturnsError(get, 1, news[0])
 			c.check(good, key, c.pos(get.Pos()), fname(fn), "unknown chord symbol is an error before the chord is built", "a chord symbol that the dictionary does not define no longer fails before op.NewChord: the unknown symbol is played as something else")
 		}
+	}
+	// a chord decoded without a `degree` key holds the zero Degree, whose printer panics: it must be refused before the chord is built
+	if fn != nil {
+		c.site(1)
+		key := "cmd.newWriteCmdArgsFromInputInstances|degree-present"
+		news := callsTo(fn, "op.NewChord")
+		good := false
+		for _, ci := range callsTo(fn, "note.Degree.Semitone") {
+			n, _, ok := loadedField(ci.Common().Args[0])
+			if ok && n == "Degree" && len(news) > 0 && c.missReturnsError(ci.(*ssa.Call), 1, news[0]) {
+				good = true
+			}
+		}
+		c.check(good, key, c.pos(fn.Pos()), fname(fn), "a chord without a valid degree is an error before the chord is built", "an instance whose chord has no `degree` key (yaml leaves the zero Degree, UnmarshalYAML is not called for an absent key) is not refused: `crd write parse` / `write conv` print `degree: %!s(PANIC=String method: InvalidDegree)0` and exit 0")
 	}
 	ap := c.fn("play", "Key.Apply")
 	if ap == nil {
